@@ -73,7 +73,7 @@ PROPS["C02"] = {
     "level_text": "random operation histories over three tables of different (generated) capacities with a controllable hash (all keys colliding, 2, 3, 7 buckets, identity) against an insertion-ordered reference map, full comparison after every operation",
     "level_note": "trusted: the reference model in harness/cont_hash.cpp, ASan; the hash of the key type is harness-defined (found by ADL) so collisions are controlled; the library's own hash() overloads (int, int64, const void*, String) are exercised by the 'hashkeys' part (harness/c02_hashkeys.cpp) with table capacities 1, 2, 3, 7, 16 and default",
     "technique": "stateful property-based testing against a reference insertion-ordered map with generated table capacities and a controllable hash",
-    "rule": "opfuzz: histories of 2..2*size ops over three HashMap / HashSet / PoolMap objects with capacities drawn from {0,1,2,3,4,7,16,500,default} and hash modulus from {1,2,3,7,identity}; after every op size/isEmpty/iteration both ways/front/back/find+contains for the whole key universe/returned iterators/element addresses/held iterators are compared with the model. "
+    "rule": "opfuzz: histories of 2..2*size ops over three HashMap / HashSet / PoolMap objects with capacities drawn from {0,1,2,3,4,7,16,500,default} and hash modulus from {1,2,3,7,identity}; after every op size/isEmpty/iteration both ways/front/back/find+contains for the whole key universe/returned iterators/element addresses/held iterators are compared with the model. Part hashkeys: HashMap / HashSet / PoolMap over the library's own hash() overloads (int, int64, pointers, String - a third of the String keys, the empty one among them, are views attached to a word inside a larger buffer); the PoolMap has a plain value type and is filled through key-only append (a new entry shows the value-initialised value, not that of a recycled slot). "
             "Non-trivial = (a bucket chain reached length >=3 AND an element was removed from the middle of such a chain) OR a swap/assignment between two non-empty tables of different capacity; distinct by case text hash.",
     "assumptions": ["a payload field that is not part of key equality shows whether an existing entry was touched"],
     "parts": hash_parts({"cases": 50000, "maxsize": 30}, {"cases": 500000, "maxsize": 120, "workers": 16}) + [HASHKEYS]
@@ -193,7 +193,7 @@ PROPS["C16"] = {
     "level_text": "generated element trees (well-formed names, up to 4 attributes with arbitrary NUL-free values, non-blank non-adjacent text nodes, depth up to 1000) are serialised and parsed back; the same trees are written as documents with the other quote style, numeric and named references, comments wherever white space is allowed (incl. next to text) and processing instructions with line breaks; truncations and byte flips are parsed for totality and error/element positions; copies of Xml::Variant values are checked for independence against a value model; a libFuzzer target with the same oracles runs on arbitrary NUL-free bytes in exactly sized heap blocks",
     "level_note": "trusted: the tree model and comparison in harness/xml_common.hpp, ASan/UBSan, libFuzzer; documents with comments are compared modulo white space in text (a comment may split a text node and white space next to a comment is not significant)",
     "technique": "property-based round-trip testing on generated element trees and documents plus coverage-guided fuzzing with in-target oracle",
-    "rule": "opfuzz 'tree': flat op lists (open, attr, text, close, and v_* ops on three Xml::Variant variables) build a tree under a root element (2 %: chains 50..1000 deep, 1 %: 900..2700 empty siblings); oracle: parse(toString(e)) has the same names, attribute order/values, text and nesting; decorated document parses to the same tree (exact without comments, white-space-insensitive text with comments); element line/column inside the text; all truncations of documents <=150 bytes (20 sampled beyond) and 10 flips: no crash, error position inside the text; Xml::Variant variables equal their value model after every v_* op. "
+    "rule": "opfuzz 'tree': flat op lists (open, attr, text, close, and v_* ops on three Xml::Variant variables) build a tree under a root element (names from a pool of well-formed names, a third of them with letters outside ASCII or a colon; 2 %: chains 50..1000 deep, 1 %: 900..2700 empty siblings); oracle: parse(toString(e)) has the same names, attribute order/values, text and nesting; decorated document parses to the same tree (exact without comments, white-space-insensitive text with comments); element line/column inside the text; all truncations of documents <=150 bytes (20 sampled beyond) and 10 flips: no crash, error position inside the text; Xml::Variant variables equal their value model after every v_* op. "
             "Non-trivial = (an attribute value with quote, ampersand, angle bracket or line break AND depth >=2) OR a document with a comment directly followed by text. libFuzzer 'fuzz': non-trivial = a parsed input in the round-trip domain with such an attribute value and nesting; distinct by input hash.",
     "assumptions": ["nesting depth <= 1000", "NUL-free input", "lines are separated by CR LF, CR or LF", "attribute names unique per element"],
     "parts": [opf("tree", ["harness/c16_xml.cpp"], {"cases": 60000, "maxsize": 40}, {"cases": 600000, "maxsize": 120, "workers": 16}, deps=["harness/xml_common.hpp", "harness/json_common.hpp"]),
